@@ -58,7 +58,7 @@ class C17(Prop):
         "write() comparison is made on the pair directly when the copy is the last operation, otherwise on throw-away "
         "pickle copies of both (write() legitimately refreshes STRT/STOP/STEP in memory)",
     ]
-    quick = {"runs": 24000, "wall": 40}
+    quick = {"runs": 45000, "wall": 60}
     thorough = {"runs": 200000, "wall": 900}
     hash_sensitive = True
 
